@@ -203,6 +203,21 @@ CHECKS["C16"] = dict(
          "bit patterns, proper boxes, strings without leading/trailing spaces, values within field widths, no nil geometries.",
     technique="TLA+ queue model checked by TLC; TLC behaviours executed on real shapefiles; recorded calls validated step by step by TLC")
 
+CHECKS["C19"] = dict(
+    level="model_checking",
+    text="Route.tla defines MinCost (Bellman-Ford), ChainOK and the exact totals, and models gonum's A* (open/closed sets, g scores, "
+         "expansion of the least f = g + h) parameterised by the Network's weight function and heuristic; TLC checks that the search "
+         "always ends with g[goal] = MinCost for every bounded network on a line (termination under weak fairness) and, as a vacuity "
+         "self-test, that unit link weights (the pre-repair Network) violate it. TLC enumerates planar networks (link sets, extra "
+         "lengths, speeds, two AddLink orders, both options, query-point pairs) which are built on the real Network and queried; "
+         "RouteTrace.tla requires every returned route to be a chain between the nearest nodes with exact totals and minimum cost, "
+         "and empty exactly when the nodes are not connected.",
+    design_ref="DESIGN.md section 5, C19",
+    note="Trusted: TLC, exactness of sums of integer lengths and of len/speed for speeds 1, 2, 4. Links are axis-parallel polylines; "
+         "nodes are far apart (node identification by relative tolerance is only exercised on exact coincidence).",
+    technique="TLA+ model of A* checked by TLC against Bellman-Ford; TLC-enumerated networks built and queried on the real code; "
+              "recorded routes validated by TLC (trace validation)")
+
 NOT_YET = "check not built yet in this round of work; will be claimed when its specification, replay and trace validation exist"
 NA = {
     "C09": "oracle is proj4js 2.3.12 and closed-form geodesy (real-valued transcendental functions, a JavaScript program that "
